@@ -62,14 +62,9 @@ Definition agrees (k : case) : bool :=
   end.
 
 (** the guard of the guarded theorem, on the case *)
-(** a variable record whose decoded time lies one or more whole seconds after the interval start *)
-Definition secs_inside (w : ws) : bool :=
-  (ws_rt w =? RT_VARIABLE) &&
-  existsb (fun rec => negb (fst (dec_pf 0 (ipd_of (ws_tf w)) (rec_ticks rec)) =? 0))
-          (chunks (List.length (ws_payload w)) (Z.to_nat (ws_vrl w)) (ws_payload w)).
-
+(** the guard, on the case: no tick exposed to the decoder's second rounding (C10 F1), well-formed write sets *)
 Definition in_domain (k : case) : bool :=
-  negb (existsb (existsb secs_inside) (mk_tgs k))
+  negb (existsb (existsb (f1_exposed get_ticks_pf dec_pf)) (mk_tgs k))
   && run_okb get_ticks_pf dec_pf [] (mk_tgs k).
 
 (** the property evaluated on the model: the replica replays everything and has converged *)
